@@ -12,6 +12,12 @@ true
 [ -f "$src/patch.diff" ] || src=/verif/seeded/$name
 [ -f "$src/patch.diff" ] || { echo "no patch for $id"; exit 2; }
 export GOFLAGS=-mod=mod GOPROXY=off
+PHASE="${PHASE:-AB}"
+pa=/verif/.scratch/phaseA-$name.txt
+if [ "$PHASE" = B ]; then
+  [ -f "$pa" ] || { echo "no phase A result for $name"; exit 2; }
+  . "$pa"
+else
 wt=/tmp/seedv/$name
 rm -rf "$wt"; git -C /repo worktree prune; git -C /repo worktree add -q --detach "$wt" HEAD || exit 2
 place=$(head -1 "$src/demo_test.go" | sed -n 's|.*place in:[[:space:]]*||p' | tr -d '`' | awk '{print $1}')
@@ -34,7 +40,10 @@ demo_without=$(timeout 300 go test -vet=off -count=1 -timeout 4m -run "$(grep -o
 cd /; git -C /repo worktree remove --force "$wt"; git -C /repo worktree prune
 ok_with=no; echo "$demo_with" | grep -q '^FAIL\|--- FAIL\|panic:' && ok_with=yes
 ok_without=no; echo "$demo_without" | grep -q '^ok' && ok_without=yes
+printf 'files=%q\nsuite_fail=%q\nok_with=%q\nok_without=%q\n' "$files" "$suite_fail" "$ok_with" "$ok_without" > "$pa"
+fi
 echo "== $name ($id): files=[$files] suite_failures=[${suite_fail}] demo_fails_with_patch=$ok_with demo_passes_without=$ok_without"
+[ "$PHASE" = A ] && exit 0
 # run the checks against it
 cd /repo || exit 2
 [ -n "$(git status --porcelain)" ] && { echo "/repo not clean"; exit 2; }
